@@ -388,6 +388,48 @@ class NCCHReader(TypeReaderCryptoBase):
         info_final = " ".join(x + ": " + str(y) for x, y in info)
         return f'<{type(self).__name__} {info_final}>'
 
+    def _load_exefs_crypto_ranges(self):
+        """Work out which parts of the ExeFS are encrypted with which keyslot (only needed with _exefs_special_handling)."""
+        # Get the sections that are encrypted with the extra keyslot. This includes any part that is not the
+        # header, "icon", "banner". This is how the 3DS treats it; any other file is encrypted with the extra
+        # keyslot. In practice this is only ".code", however if another file is forced in like "logo", it is
+        # encrypted with the extra keyslot. So because this has a chance of happening, no matter how unlikely,
+        # I have to do this properly. Assumptions with Nintendo formats have bitten me in the ass before.
+
+        # Load the ExeFS to get the file offsets and sizes. It's re-created after once a new merged file is made
+        # with the decrypted sections.
+        exefs_tmp_fp = self._open_section_generic(NCCHSection.ExeFS)
+        exefs_tmp = ExeFSReader(exefs_tmp_fp, closefd=False, _load_icon=False)
+
+        # Starting from 0 and the original keyslot, this is every place where the crypto changes.
+        # Example, 0 from 0x200 is original, then 0x200 to 0x380 is extra, then 0x380 to 0x400 is original,
+        # then 0x400 to 0x700 is extra, then 0x700 to 0x800 is original, etc. The list in this case would look
+        # like: [0x200, 0x380, 0x400, 0x700, 0x800]
+        # This is a set to prevent duplicates. It turns into a sorted list after.
+        # The byte ranges (relative to the ExeFS start) of every file that uses the extra keyslot.
+        extra_ranges = sorted((info.offset + 0x200, info.offset + info.size + 0x200)
+                              for name, info in exefs_tmp.entries.items()
+                              if name not in EXEFS_NORMAL_CRYPTO_FILES and info.size)
+        exefs_size = self.sections[NCCHSection.ExeFS].size
+
+        # This creates a list of start + end ranges, plus whether the extra keyslot decrypts them.
+        # In open_raw_section it is used to create multiple SubsectionIO objects based on one of two CTRFileIO
+        # objects, one for the main keyslot and one for extra. Then all of them are merged into one large
+        # file with SplitFileMerger to provide easy access to the full decrypted ExeFS.
+        self._exefs_crypto_ranges = []
+        previous_offset = 0
+        for start, end in extra_ranges:
+            start = max(start, previous_offset)
+            end = min(end, exefs_size)
+            if end <= start:
+                continue
+            if start > previous_offset:
+                self._exefs_crypto_ranges.append((previous_offset, start, False))
+            self._exefs_crypto_ranges.append((start, end, True))
+            previous_offset = end
+        if previous_offset < exefs_size:
+            self._exefs_crypto_ranges.append((previous_offset, exefs_size, False))
+
     def load_sections(self):
         """Load the sections of the NCCH (Extended Header, ExeFS, and RomFS)."""
 
@@ -398,45 +440,7 @@ class NCCHReader(TypeReaderCryptoBase):
             pass  # no ExeFS
         else:
             if self._exefs_special_handling:
-                # Get the sections that are encrypted with the extra keyslot. This includes any part that is not the
-                # header, "icon", "banner". This is how the 3DS treats it; any other file is encrypted with the extra
-                # keyslot. In practice this is only ".code", however if another file is forced in like "logo", it is
-                # encrypted with the extra keyslot. So because this has a chance of happening, no matter how unlikely,
-                # I have to do this properly. Assumptions with Nintendo formats have bitten me in the ass before.
-
-                # Load the ExeFS to get the file offsets and sizes. It's re-created after once a new merged file is made
-                # with the decrypted sections.
-                exefs_tmp_fp = self._open_section_generic(NCCHSection.ExeFS)
-                exefs_tmp = ExeFSReader(exefs_tmp_fp, closefd=False, _load_icon=False)
-
-                # Starting from 0 and the original keyslot, this is every place where the crypto changes.
-                # Example, 0 from 0x200 is original, then 0x200 to 0x380 is extra, then 0x380 to 0x400 is original,
-                # then 0x400 to 0x700 is extra, then 0x700 to 0x800 is original, etc. The list in this case would look
-                # like: [0x200, 0x380, 0x400, 0x700, 0x800]
-                # This is a set to prevent duplicates. It turns into a sorted list after.
-                # The byte ranges (relative to the ExeFS start) of every file that uses the extra keyslot.
-                extra_ranges = sorted((info.offset + 0x200, info.offset + info.size + 0x200)
-                                      for name, info in exefs_tmp.entries.items()
-                                      if name not in EXEFS_NORMAL_CRYPTO_FILES and info.size)
-                exefs_size = self.sections[NCCHSection.ExeFS].size
-
-                # This creates a list of start + end ranges, plus whether the extra keyslot decrypts them.
-                # In open_raw_section it is used to create multiple SubsectionIO objects based on one of two CTRFileIO
-                # objects, one for the main keyslot and one for extra. Then all of them are merged into one large
-                # file with SplitFileMerger to provide easy access to the full decrypted ExeFS.
-                self._exefs_crypto_ranges = []
-                previous_offset = 0
-                for start, end in extra_ranges:
-                    start = max(start, previous_offset)
-                    end = min(end, exefs_size)
-                    if end <= start:
-                        continue
-                    if start > previous_offset:
-                        self._exefs_crypto_ranges.append((previous_offset, start, False))
-                    self._exefs_crypto_ranges.append((start, end, True))
-                    previous_offset = end
-                if previous_offset < exefs_size:
-                    self._exefs_crypto_ranges.append((previous_offset, exefs_size, False))
+                self._load_exefs_crypto_ranges()
 
             # This will set up either the special ExeFS encryption from above, or a straightforward decryption
             # passthrough if not.
@@ -470,6 +474,11 @@ class NCCHReader(TypeReaderCryptoBase):
                 main_io = self._crypto.create_ctr_io(self.main_keyslot, main_io, region.iv)
                 extra_io = self._open_section_generic(section, encryption=False)
                 extra_io = self._crypto.create_ctr_io(Keyslot.NCCHExtraKey, extra_io, region.iv)
+                try:
+                    self._exefs_crypto_ranges
+                except AttributeError:
+                    # load_sections was not called
+                    self._load_exefs_crypto_ranges()
                 for exefs_range in self._exefs_crypto_ranges:
                     base_file = extra_io if exefs_range[2] else main_io
                     size = exefs_range[1] - exefs_range[0]
@@ -645,6 +654,11 @@ class NCCHReader(TypeReaderCryptoBase):
             # if the region is ExeFS and extra crypto is being used, special handling is required
             #   because different parts use different encryption methods
             if region.section == NCCHSection.ExeFS:
+                try:
+                    self._exefs_fp
+                except AttributeError:
+                    # load_sections was not called
+                    self._exefs_fp = self.open_raw_section(NCCHSection.ExeFS)
                 return self._read_locked(self._exefs_fp, offset, size)
             else:
                 # this is currently used to support FullDecrypted. other sections use SubsectionIO + CTRFileIO.
